@@ -31,6 +31,9 @@ type Failure struct {
 	Sig     string          `json:"sig"`
 	Msg     string          `json:"msg"`
 	History json.RawMessage `json:"history,omitempty"` // recorded history for schedule-dependent checks
+	// Sticky failures (a hung step whose goroutine cannot be stopped) are not
+	// re-executed: every later execution in this process reports the same failure.
+	Sticky bool `json:"-"`
 }
 
 func Failf(sig, format string, args ...any) *Failure {
@@ -227,7 +230,7 @@ func Run[C any](t *testing.T, sp Spec[C]) {
 		if err != nil {
 			panic("verifkit: case not serialisable: " + err.Error())
 		}
-		if failed != nil && sp.Nondet {
+		if failed != nil && (sp.Nondet || failed.Sticky) {
 			// sticky: schedule-dependent failures are not re-executed for shrinking
 			fatal("%s: %s", failed.Sig, failed.Msg)
 			return
